@@ -281,6 +281,10 @@ func RunC06(ctx *core.Ctx, r *core.Rng) {
 		kind = "random"
 	}
 	doc := f.Gen(r, sz)
+	if r.Chance(0.012) { // a line within 3 bytes of 64 KiB, in an otherwise tiny document
+		doc, sz, kind = fmts.Boundary64K(r, f), fmts.Large, "wellformed"
+		ctx.Stats.Inc("probe/line_within_3_bytes_of_64KiB")
+	}
 	term := "\n"
 	if r.Chance(0.3) {
 		term = "\r\n"
